@@ -9,7 +9,7 @@ import glob, json, os, re, shutil, subprocess, sys, tempfile, time
 import concurrent.futures as cf
 HERE = os.path.dirname(os.path.abspath(__file__))
 VERIF = os.path.dirname(HERE)
-ALL = ['C01', 'C02', 'C03', 'C04', 'C07', 'C08', 'C09', 'C10', 'C11', 'C13', 'C14']
+ALL = ['C01', 'C02', 'C03', 'C04', 'C07', 'C08', 'C09', 'C10', 'C11', 'C13', 'C14', 'C16']
 
 
 def sh(cmd, cwd=None, timeout=3000, env=None):
@@ -60,6 +60,31 @@ def do_import(src, sid, confirm_res=None):
     print('imported', sid)
 
 
+_BASE_TEXT = {}
+
+
+def unit_text(u, repo):
+    sys.path.insert(0, HERE)
+    import extract
+    try:
+        return extract.build_unit(u, repo, VERIF).render()[0]
+    except Exception as e:
+        return 'EXTRACTION FAILED: %r' % (e,)
+
+
+def unchanged_for(p, wt):
+    """True if every unit of property p generates, from the patched tree, exactly the text it generates from /repo:
+    the check's Verus verdict is then that of the unchanged tree (the Kani harnesses read the whole crate, so this
+    shortcut is only taken when VERIF_KANI is off)"""
+    import props as P
+    for u in P.PROPS[p]['units']:
+        if u not in _BASE_TEXT:
+            _BASE_TEXT[u] = unit_text(u, '/repo')
+        if _BASE_TEXT[u].startswith('EXTRACTION FAILED') or unit_text(u, wt) != _BASE_TEXT[u]:
+            return False
+    return True
+
+
 def detect_one(sid, props=None, base='seeded'):
     d = os.path.join(VERIF, base, sid)
     meta = json.load(open(os.path.join(d, 'meta.json')))
@@ -81,6 +106,9 @@ def detect_one(sid, props=None, base='seeded'):
             out['error'] = 'patch does not apply to /repo HEAD: ' + o[-300:]
             return out
         for p in (props or [pid]):
+            if base == 'seeded_harmless' and os.environ.get('SEEDED_KANI', 'on') == 'off' and unchanged_for(p, wt):
+                out['checks'][p] = {'exit': 0, 'lines': [], 'wall_s': 0.0, 'skipped': 'every unit of this check generates the same text as from the unchanged tree'}
+                continue
             env = dict(os.environ, VERIF_REPO=wt, VERIF_EVIDENCE_DIR=os.path.join(tmp, 'evidence'), VERIF_REPLAY_DIR=os.path.join(tmp, 'replay'),
                        VERIF_WORK_DIR=os.path.join(tmp, 'work'))
             if os.environ.get('SEEDED_KANI', 'on') == 'off':
